@@ -713,6 +713,18 @@ def sym_sorted(it, **kw):
     return _b.sorted(it, **kw)
 
 
+def sym_memoryview(x):
+    if isinstance(x, SymSeq):
+        return x  # slicing / indexing a view of symbolic bytes behaves like the bytes themselves
+    return _b.memoryview(x)
+
+
+def sym_bytearray(x=b"", *a):
+    if isinstance(x, SymSeq):
+        raise Unsupported("bytearray of symbolic bytes (mutable buffer)")
+    return _b.bytearray(x, *a)
+
+
 SHADOW_BUILTINS = {
     "len": sym_len,
     "int": _IntShadow,
@@ -731,6 +743,8 @@ SHADOW_BUILTINS = {
     "abs": sym_abs,
     "ord": sym_ord,
     "range": sym_range,
+    "memoryview": sym_memoryview,
+    "bytearray": sym_bytearray,
     "frozenset": sym_frozenset,
 }
 
